@@ -14,7 +14,7 @@ ENGINES = [
          kind_free_text="Kani proof harnesses (kani::any inputs, #[kani::unwind]) over the real leaf kernels of ciphercore-base (bytes.rs, slices.rs, broadcast.rs, random.rs, evaluator free functions), "
                         "built from /repo's working tree with the verif-hooks feature; failing harnesses are replayed natively with Kani's concrete playback before a VIOLATION is printed"),
     dict(name="graph-smt", path="driver/ + symg/",
-         serves_properties=["C01", "C02", "C05", "C06", "C07", "C08", "C16", "C17"],
+         serves_properties=["C01", "C02", "C04", "C05", "C06", "C07", "C08", "C16", "C17"],
          kind_free_text="Rust driver linked against /repo's current tree runs the real instantiate/inline/compile/optimize functions and dumps the term DAGs they build; "
                         "a Python interpreter turns each DAG 1:1 into z3 bit-vector terms (inputs, randomness, junk symbolic) and z3/cvc5 decide the property; models are replayed on the real evaluator"),
 ]
@@ -37,6 +37,12 @@ chk("C02", "graph-smt", "translation_validation",
     "in a three-party executor built on the real Evaluator::evaluate_node. Non-recipient queries must be sat (vacuity witness).",
     G_NOTE + " Execution model as stated in the property's observe_at (not stored in the repository).",
     "SMT (z3) three-view symbolic execution of the compiled graph with junk and per-party tapes universally quantified", "DESIGN.md §5 C02")
+
+chk("C04", "graph-smt", "other",
+    "(a) For every generated compiled program (ring templates, Call/Iterate wrappers in all 3 inline modes, bit-level protocol templates that request several masks from one key: OT, Truncate2K, A2B/B2A, permutation/sort; both the staged pre-optimiser graph and the final compile_context output) "
+    "the counters of all PRF/PermutationFromPRF nodes are collected and shown pairwise distinct; for equal counters the solver decides whether the two key terms can differ. "
+    "(b) For optimiser inputs containing Random/PRF nodes each randomising node of the output is tied to its preimage under the returned mapping; a merged, invented or constant-folded randomising node, or a value difference under tied tapes (solver-decided), is a violation. Exploration over generated programs; the per-program facts are exact.",
+    G_NOTE, "enumeration of PRF counters on real compiler output + SMT key-term (dis)equality and tied-tape equivalence", "DESIGN.md §5 C04")
 
 chk("C05", "graph-smt", "other",
     "Bounded symbolic check of the compiled Truncate protocols (real TruncateMPC2K / TruncateMPC through compile_context): for INT8..INT64/UINT8..UINT64, boundary k (all k thorough), owners {0,1,2,shared,public}, 7 output sets, 3 inline modes, "
@@ -94,7 +100,7 @@ chk("C17", "graph-smt", "other",
     G_NOTE, "SMT (z3 QF_BV) equivalence of the real generated circuit vs bit-vector spec, all operands symbolic", "DESIGN.md §5 C17")
 
 _pending = "check not built yet in this session; see DESIGN.md for the plan"
-for p in ["C03","C04","C18"]:
+for p in ["C03","C18"]:
     NOT_APPLICABLE[p] = _pending
 NOT_APPLICABLE["C11"] = "API histories over Arc/AtomicRefCell/HashMap state with format!-built errors: not encodable (Kani: 580 s/15 GB on a 3-call concrete history); a hand model would not be the real code"
 NOT_APPLICABLE["C12"] = "serde_json/typetag parsing of several-hundred-byte strings followed by the graph-building API: out of reach of bit-precise symbolic execution; round-trip equality has no input to quantify besides the program"
